@@ -36,11 +36,29 @@ def decBlock : Sexp → Option B
     pure { label, instrs, offset, term }
   | _ => none
 
-def decOut : Sexp → Option (Bool × List B)
-  | .list [.atom "cfg", .list [.atom "dyn", .atom d], .list (.atom "blocks" :: bs)] => do
+/-- sibling observations: owned round trip, `BasicBlock::try_from`, offset indexing through
+`Program::get_instruction`, terminator written back, second computation, other build route -/
+structure Sib where
+  owned : String
+  single : String
+  index : String
+  term : String
+  again : String
+  route : String
+
+def decOut : Sexp → Option (Bool × List B × Sib)
+  | .list [.atom "cfg", .list [.atom "dyn", .atom d], .list (.atom "blocks" :: bs),
+      .list [.atom "sib", .atom o, .atom sg, .atom ix, .atom tm, .atom ag], .atom rt] => do
     let bs ← bs.mapM decBlock
-    pure (d == "true", bs)
+    pure (d == "true", bs, { owned := o, single := sg, index := ix, term := tm, again := ag, route := rt })
   | _ => none
+
+/-- What the sibling observations must be, given the model's blocks. -/
+def sibOk (body : List I) (m : List B) (s : Sib) : Bool :=
+  s.owned == "owned-same" && s.again == "again-same" && s.route == "route-same"
+  && s.single == (if m.length == 1 then "ok-same" else "err")
+  && (if body.any Ins.isSkip then s.index == "index-na" else s.index == "index-ok")
+  && s.term == "term-ok"
 
 def insTag : I → String
   | .other _ => "other" | .skip _ => "skip" | .label _ => "label" | .jump _ => "jump"
@@ -50,11 +68,12 @@ def handle (inp out : Sexp) : CaseResult :=
   match inp with
   | .list (.atom "body" :: xs) =>
     match xs.mapM decIns, decOut out with
-    | some body, some (dyn, bs) =>
+    | some body, some (dyn, bs, sib) =>
       let m := build body
       let mdyn := hasDynamic m
       let agree := decide (m = bs) && mdyn == dyn
-      let specOk := specCheck body bs dyn
+      -- the spec on the implementation's blocks, and every sibling entry point consistent with it
+      let specOk := specCheck body bs dyn && sibOk body m sib
       -- non-trivial: at least two blocks, i.e. the partition is exercised
       let nontrivial := m.length ≥ 2
       let kinds := (body.map insTag).eraseDups
@@ -62,7 +81,7 @@ def handle (inp out : Sexp) : CaseResult :=
         tags := [s!"len{min body.length 9}", s!"blocks{min m.length 6}"] ++ kinds
           ++ (if mdyn then ["dynamic"] else [])
           ++ (if m.any (fun b => b.label.isSome && b.instrs.isEmpty) then ["label-only-block"] else []),
-        detail := s!"model dyn={mdyn} blocks={repr m}" }
+        detail := s!"model dyn={mdyn} blocks={repr m} sib={sib.owned},{sib.single},{sib.index},{sib.term},{sib.again},{sib.route}" }
     | _, _ => .bad s!"undecodable case {inp} {out}"
   | _ => .bad s!"undecodable input {inp}"
 
